@@ -241,6 +241,17 @@ def check_wiring(report, facts, rule, compressed, doc_text):
                     bound[params[i]] = a
             for k, v in o.kwargs.items():
                 bound[k] = v
+            if not any(isinstance(a, tuple) and a and a[0] == 'star' for a in o.args):
+                required = [p for p, d in facts.init_params(cls) if d is None]
+                missing = [p for p in required if p not in bound]
+                extra = len(o.args) - len(params)
+                owner = facts.init_owner(cls)
+                if missing or (extra > 0 and not (owner is not None and owner.init_vararg)) or any(k not in params for k in o.kwargs):
+                    report.fail(Finding(rule, 'parse_item', o.node, '{} is built with {} argument(s) for the parameters {}{}: the line cannot be '
+                                        'parsed'.format(cls, len(o.args) + len(o.kwargs), params,
+                                                        ' (no value for {})'.format(missing) if missing else ''), line=o.node.lineno),
+                                instance='{} arity {}'.format(cls, unparse(o.node)[:60]))
+                    continue
             # name parameter
             nm = bound.get('name')
             if nm is not None and nm[0] not in ('tok', 'tokend', 'lower', 'const', 'imm', 'int', 'rest', 'list', 'line'):
